@@ -515,8 +515,10 @@ theorem run_balance (bias k x area dead dt s : ℝ) (hb0 : 0 ≤ bias) (hb1 : bi
       0 ≤ sIndex (mkCtx i.1 i.2.1 (setup bias k x dt).bias prev ((i.2.2.2 - i.2.2.1) / dt) area dead dt (setup bias k x dt).x k
         (setup bias k x dt).qlimit (setup bias k x dt).klimit (setup bias k x dt).koffset) q := by
     intro i prev q
-    refine le_trans hdead (sIndex_nonneg _ f1 (le_of_lt hk) f2 f3 (fun _ => f5) (fun h => ?_) q)
-    exact absurd f4 (not_le.mpr h)
+    have := sIndex_nonneg (mkCtx i.1 i.2.1 (setup bias k x dt).bias prev ((i.2.2.2 - i.2.2.1) / dt) area dead dt
+      (setup bias k x dt).x k (setup bias k x dt).qlimit (setup bias k x dt).klimit (setup bias k x dt).koffset)
+      f1 (le_of_lt hk) f2 f3 (fun _ => f5) (fun h => absurd f4 (not_le.mpr h)) q
+    exact le_trans hdead this
   have := scan_chain (setup bias k x dt) k area dead dt hdt (f7 hb1) hS xs ⟨0.0, 0.0, s, 0.0⟩ hs hlat
   exact this
 
